@@ -85,7 +85,8 @@ pub fn run(run: &Run) {
          over the 7 rule-relevant groups {L, R|AL, AN, EN, ES|CS|ET|ON|BN, NSM, other}, each class instantiated by code points drawn with proptest from \
          ALL members of the class assigned in Unicode 16.0.0 (16 representative tables per thread); (b) battery: every code point assigned in 16.0.0 in \
          the six templates [c], [L c], [R c], [R AN c], [R EN c], [R c R] (separates the 7 groups, so a table entry with a wrong rule-relevant class \
-         changes an outcome); (c) proptest strings over assigned code points biased to RTL-relevant classes; through Rules::directionality_rule of \
+         changes an outcome); every class repeated exactly 254..257, 511..513, 65535..65537 times inside 8 RTL/LTR frames; every assigned code point behind LTR and RTL \
+         prefixes of 7..65 characters; alignment sweeps and runs of marks; (c) proptest strings over assigned code points biased to RTL-relevant classes; through Rules::directionality_rule of \
          both username profiles. Oracle: bidi class from my parse of UnicodeData 16.0.0 + the six RFC 5893 conditions written over the class sequence: \
          Ok(same string) iff no R/AL/AN present or all conditions hold, else Err(Invalid). Non-trivial: label has an R/AL/AN character and >= 2 \
          characters; distinct = distinct (profile,label).",
@@ -235,6 +236,59 @@ pub fn run(run: &Run) {
             }
         }
         true
+    });
+    // exact run lengths of every class (counters that wrap), inside RTL and LTR labels
+    run.par("class_runs_exact_counts", true, |tid, n, l| {
+        let reps = reps_for("class_runs_exact_counts", tid);
+        let table = &reps[0];
+        for cl in 0..23usize {
+            if cl % n != tid {
+                continue;
+            }
+            for count in [254usize, 255, 256, 257, 511, 512, 513, 65535, 65536, 65537] {
+                let run_s: String = std::iter::repeat(table[cl]).take(count).collect();
+                for (pre, post) in [("\u{5d0}", "\u{661}"), ("\u{5d0}", "1"), ("\u{5d0}", "\u{5d1}"), ("\u{5d0}", ""), ("a", "b"), ("a", "\u{5d0}"), ("\u{5d0}1", "\u{661}"), ("\u{627}\u{661}", "7")] {
+                    let s = format!("{pre}{run_s}{post}");
+                    l.cases += 1;
+                    for p in profs {
+                        if check(run, p, &s, l).is_err() {
+                            // report unshrunk: deleting characters changes the count that matters
+                            if let Err(v) = check(run, p, &s, &mut Local::scratch()) {
+                                run.violate(v);
+                            }
+                            return;
+                        }
+                    }
+                }
+            }
+        }
+    });
+    // every assigned code point behind LTR / RTL prefixes of 7..65 characters (byte-block fast paths)
+    run.par("per_code_point_long_prefix", true, |tid, n, l| {
+        let d = db();
+        let ks = [7usize, 8, 9, 15, 16, 17, 31, 32, 33, 63, 64, 65];
+        let lpre: Vec<String> = ks.iter().map(|k| "a".repeat(*k)).collect();
+        let rpre: Vec<String> = ks.iter().map(|k| "\u{5d0}".repeat(*k)).collect();
+        let mut cp = tid as u32;
+        while cp < 0x110000 {
+            if d.u16.listed[cp as usize] {
+                if let Some(c) = char::from_u32(cp) {
+                    if cp % 4096 == 0 && run.stopped() {
+                        return;
+                    }
+                    for (i, pre) in lpre.iter().chain(rpre.iter()).enumerate() {
+                        let s = if i % 3 == 0 { format!("{pre}{c}z") } else { format!("{pre}{c}") };
+                        l.cases += 1;
+                        let p = profs[i % 2];
+                        if check(run, p, &s, l).is_err() {
+                            report(run, p, &s);
+                            return;
+                        }
+                    }
+                }
+            }
+            cp += n as u32;
+        }
     });
     // (c) random
     let mk = || {
